@@ -63,6 +63,10 @@ class PiPtrConfig(SSEConfig):
                                      "ske"],
                                     config_dict)
 
+        # B identifiers per array block, b pointers per dictionary entry: with B < 1 or b < 1 nothing is ever
+        # written and every search comes back empty
+        SSEConfig.check_param_positive_int(["param_B", "param_b"], config_dict)
+
         self.param_lambda = config_dict.get("param_lambda")
         self.param_B = config_dict.get("param_B")
         self.param_b = config_dict.get("param_b")
